@@ -148,23 +148,22 @@ Section SampleProofs.
 
   (* ================================================================
      T13.1  zero draws give the marginal means *)
-  Definition zero_col (n : nat) (z : mat) : Prop := forall i, i < n -> mget z i 0 = 0.
+  Definition zero_draw (n c : nat) (z : mat) : Prop :=
+    forall i a, i < n -> a < c -> mget z i a = 0.
 
-  Lemma mget_bcast n c (v : mat) i a : i < n -> a < c -> mget (bcast n c v) i a = mget v i 0.
-  Proof. intros. unfold bcast. rewrite mget_mk by assumption. reflexivity. Qed.
-
-  Lemma mmul_zero_col n (L z : mat) i : zero_col n z -> i < n -> mget (mmul n n 1 L z) i 0 = 0.
+  Lemma mmul_zero_draw n c (L z : mat) i a :
+    zero_draw n c z -> i < n -> a < c -> mget (mmul n n c L z) i a = 0.
   Proof.
-    intros Hz Hi. rewrite mget_mmul by lia.
+    intros Hz Hi Ha. rewrite mget_mmul by assumption.
     rewrite (vsum_ext n _ (fun _ => 0)); [apply vsum_zero|].
     intros l Hl. rewrite Hz by assumption. ring.
   Qed.
 
   Lemma n_sample_zero n c (mean L z : mat) :
-    zero_col n z -> n_sample n c mean L z = canon n c mean.
+    zero_draw n c z -> n_sample n c mean L z = canon n c mean.
   Proof.
     intro Hz. unfold n_sample, madd, canon. apply mk_ext. intros i a Hi Ha.
-    rewrite mget_bcast by assumption. rewrite mmul_zero_col by assumption. ring.
+    rewrite mmul_zero_draw by assumption. ring.
   Qed.
 
   Lemma canon_canon n m (A : mat) : canon n m (canon n m A) = canon n m A.
@@ -187,14 +186,14 @@ Section SampleProofs.
   Proof. reflexivity. Qed.
 
   Lemma sample_step_zero n c (K : cond) (L z x : mat) :
-    zero_col n z -> sample_step n c K L z x = n_mean (c_apply n n c K x).
+    zero_draw n c z -> sample_step n c K L z x = n_mean (c_apply n n c K x).
   Proof.
     intro Hz. unfold sample_step. rewrite n_sample_zero by exact Hz.
     apply c_apply_mean_is_canon.
   Qed.
 
   Lemma rev_chain_zero_draws n c (steps : list (cond * mat * mat)) (term : normal) :
-    Forall (fun s => zero_col n (snd s)) steps ->
+    Forall (fun s => zero_draw n c (snd s)) steps ->
     rev_chain n c steps (canon n c (n_mean term))
     = map (fun rv => canon n c (n_mean rv))
           (back_marginals n c (map (fun s => fst (fst s)) steps) term).
@@ -211,7 +210,7 @@ Section SampleProofs.
 
   Theorem zero_draws_give_backward_means n c (term : normal) (L0 : mat) conds Ls z0 zs :
     length Ls = length conds -> length zs = length conds ->
-    zero_col n z0 -> Forall (zero_col n) zs ->
+    zero_draw n c z0 -> Forall (zero_draw n c) zs ->
     markov_sample true n c (n_mean term) L0 conds Ls (z0 :: zs)
     = Some (map (fun rv => canon n c (n_mean rv)) (back_marginals n c conds term)).
   Proof.
@@ -224,7 +223,7 @@ Section SampleProofs.
 
   (* forward chain *)
   Lemma scan_zero_draws n c (steps : list (cond * mat * mat)) (rv : normal) (x : mat) :
-    Forall (fun s => zero_col n (snd s)) steps ->
+    Forall (fun s => zero_draw n c (snd s)) steps ->
     canon n c x = canon n c (n_mean rv) ->
     scan_samples n c x steps
     = map (fun rv => canon n c (n_mean rv))
@@ -242,7 +241,7 @@ Section SampleProofs.
 
   Theorem zero_draws_give_forward_means n c (init : normal) (L0 : mat) conds Ls z0 zs :
     length Ls = length conds -> length zs = length conds ->
-    zero_col n z0 -> Forall (zero_col n) zs ->
+    zero_draw n c z0 -> Forall (zero_draw n c) zs ->
     markov_sample false n c (n_mean init) L0 conds Ls (z0 :: zs)
     = Some (map (fun rv => canon n c (n_mean rv)) (seq_marginals false n c conds init)).
   Proof.
@@ -261,11 +260,11 @@ Section SampleProofs.
     mget (sample_step n c K L z x) i a
     = vget (c_to K) i * (vsum n (fun l => mget (c_A K) i l * (vget (c_tl K) l * mget x l a))
                          + mget (c_b K) i a)
-      + vsum n (fun l => mget L i l * mget z l 0).
+      + vsum n (fun l => mget L i l * mget z l a).
   Proof.
     intros Hi Ha. unfold sample_step, n_sample, c_apply; cbn [n_mean].
-    rewrite mget_madd by assumption. rewrite mget_bcast by assumption.
-    rewrite mget_mmul by lia. rewrite mget_scale_rows by assumption.
+    rewrite mget_madd by assumption.
+    rewrite (mget_mmul n n c L z) by assumption. rewrite mget_scale_rows by assumption.
     rewrite mget_madd by assumption. rewrite mget_mmul by assumption.
     f_equal. f_equal. f_equal. apply vsum_ext. intros l Hl.
     rewrite mget_scale_rows by assumption. reflexivity.
@@ -283,7 +282,7 @@ Section SampleProofs.
 
   Lemma sample_step_affine n c (K : cond) (L z x0 xl : mat) :
     sample_step n c K L z (madd n c x0 xl)
-    = madd n c (sample_step n c K L (mzero n 1) x0)
+    = madd n c (sample_step n c K L (mzero n c) x0)
                (sample_step n c (c_nooff n c K) L z xl).
   Proof.
     rewrite (sample_step_is_canon n c K L z). unfold madd at 2. apply mk_ext.
@@ -294,24 +293,24 @@ Section SampleProofs.
                          + mget (c_A K) i l * (vget (c_tl K) l * mget xl l a))).
     2:{ intros l Hl. rewrite mget_madd by assumption. ring. }
     rewrite vsum_add.
-    rewrite (vsum_ext n (fun l => mget L i l * mget (mzero n 1) l 0) (fun _ => 0)).
-    2:{ intros l Hl. rewrite mget_mzero by lia. ring. }
+    rewrite (vsum_ext n (fun l => mget L i l * mget (mzero n c) l a) (fun _ => 0)).
+    2:{ intros l Hl. rewrite mget_mzero by assumption. ring. }
     rewrite vsum_zero. rewrite mget_mzero by assumption. ring.
   Qed.
 
   Lemma n_sample_affine n c (m0 L0 z0 : mat) :
     n_sample n c m0 L0 z0
-    = madd n c (n_sample n c m0 L0 (mzero n 1)) (n_sample n c (mzero n c) L0 z0).
+    = madd n c (n_sample n c m0 L0 (mzero n c)) (n_sample n c (mzero n c) L0 z0).
   Proof.
     unfold n_sample. unfold madd at 1 2. apply mk_ext. intros i a Hi Ha.
-    rewrite !mget_madd by assumption. rewrite !mget_bcast by assumption.
+    rewrite !mget_madd by assumption.
     rewrite mget_mzero by assumption.
-    rewrite (mmul_zero_col n L0 (mzero n 1) i) by (try assumption; intros l Hl; apply mget_mzero; lia).
+    rewrite (mmul_zero_draw n c L0 (mzero n c) i a) by (try assumption; intros l b Hl Hb; apply mget_mzero; assumption).
     ring.
   Qed.
 
-  Definition st_zero (n : nat) (s : cond * mat * mat) : cond * mat * mat :=
-    (fst (fst s), snd (fst s), mzero n 1).
+  Definition st_zero (n c : nat) (s : cond * mat * mat) : cond * mat * mat :=
+    (fst (fst s), snd (fst s), mzero n c).
   Definition st_nooff (n c : nat) (s : cond * mat * mat) : cond * mat * mat :=
     (c_nooff n c (fst (fst s)), snd (fst s), snd s).
 
@@ -324,7 +323,7 @@ Section SampleProofs.
 
   Lemma rev_chain_affine n c (steps : list (cond * mat * mat)) (a b : mat) :
     rev_chain n c steps (madd n c a b)
-    = zipw (madd n c) (rev_chain n c (map (st_zero n) steps) a)
+    = zipw (madd n c) (rev_chain n c (map (st_zero n c) steps) a)
                       (rev_chain n c (map (st_nooff n c) steps) b).
   Proof.
     induction steps as [|[[K L] z] r IH]; [reflexivity|].
@@ -335,7 +334,7 @@ Section SampleProofs.
 
   Lemma scan_samples_affine n c (steps : list (cond * mat * mat)) (a b : mat) :
     scan_samples n c (madd n c a b) steps
-    = zipw (madd n c) (scan_samples n c a (map (st_zero n) steps))
+    = zipw (madd n c) (scan_samples n c a (map (st_zero n c) steps))
                       (scan_samples n c b (map (st_nooff n c) steps)).
   Proof.
     revert a b. induction steps as [|[[K L] z] r IH]; intros a b; [reflexivity|].
@@ -343,8 +342,8 @@ Section SampleProofs.
     rewrite sample_step_affine. rewrite IH. reflexivity.
   Qed.
 
-  Lemma zip3_map_zero n (a : list cond) (b : list mat) (d : list mat) :
-    zip3 a b (map (fun _ => mzero n 1) d) = map (st_zero n) (zip3 a b d).
+  Lemma zip3_map_zero n c (a : list cond) (b : list mat) (d : list mat) :
+    zip3 a b (map (fun _ => mzero n c) d) = map (st_zero n c) (zip3 a b d).
   Proof.
     revert b d. induction a as [|x a IH]; intros b d; [reflexivity|].
     destruct b as [|y b]; [reflexivity|]. destruct d as [|w d]; [reflexivity|].
@@ -361,7 +360,7 @@ Section SampleProofs.
   Theorem sample_is_affine n c (reverse : bool) (m0 L0 : mat) conds Ls z0 zs :
     length Ls = length conds -> length zs = length conds ->
     exists s0 sl,
-      markov_sample reverse n c m0 L0 conds Ls (zeros_like n (z0 :: zs)) = Some s0 /\
+      markov_sample reverse n c m0 L0 conds Ls (zeros_like n c (z0 :: zs)) = Some s0 /\
       markov_sample reverse n c (mzero n c) L0 (map (c_nooff n c) conds) Ls (z0 :: zs) = Some sl /\
       markov_sample reverse n c m0 L0 conds Ls (z0 :: zs) = Some (zipw (madd n c) s0 sl).
   Proof.
@@ -403,76 +402,79 @@ Section SampleProofs.
   Lemma madd_comm n m (X Y : mat) : madd n m X Y = madd n m Y X.
   Proof. unfold madd. apply mk_ext. intros. ring. Qed.
 
-  Lemma wsum_map_gain n (G : mat) ws zs :
-    wsum n (map (mmul n n n G) ws) zs = mmul n n 1 G (wsum n ws zs).
+  Lemma wsum_map_gain n c (G : mat) ws zs :
+    wsum n c (map (mmul n n n G) ws) zs = mmul n n c G (wsum n c ws zs).
   Proof.
     revert zs. induction ws as [|W ws IH]; intro zs.
     - cbn [map wsum]. symmetry. apply mmul_mzero_r.
     - destruct zs as [|z zs]; cbn [map wsum].
       + symmetry. apply mmul_mzero_r.
-      + rewrite IH. rewrite mmul_add_r. rewrite (mmul_assoc n n n 1 G W z). reflexivity.
+      + rewrite IH. rewrite mmul_add_r. rewrite (mmul_assoc n n n c G W z). reflexivity.
   Qed.
 
-  Lemma bcast_ext n c (u v : mat) :
-    (forall i, i < n -> mget u i 0 = mget v i 0) -> bcast n c u = bcast n c v.
-  Proof. intro Huv. unfold bcast. apply mk_ext. intros i a Hi _. apply Huv. exact Hi. Qed.
-
-  Lemma bcast_wsum_zero_head n c row z zs :
-    bcast n c (wsum n (mzero n n :: row) (z :: zs)) = bcast n c (wsum n row zs).
+  Lemma wsum_canon n c ws zs : canon n c (wsum n c ws zs) = wsum n c ws zs.
   Proof.
-    apply bcast_ext. intros i Hi. cbn [wsum]. rewrite mget_madd by lia.
-    rewrite mmul_mzero_l. rewrite mget_mzero by lia. ring.
+    destruct ws as [|W ws]; [apply canon_mk|]. destruct zs as [|z zs]; [apply canon_mk|].
+    cbn [wsum]. unfold madd. apply canon_mk.
+  Qed.
+
+  Lemma wsum_zero_head n c row z zs :
+    wsum n c (mzero n n :: row) (z :: zs) = wsum n c row zs.
+  Proof.
+    cbn [wsum]. rewrite mmul_mzero_l. rewrite madd_mzero_l. apply wsum_canon.
   Qed.
 
   Lemma sample_step_linear_part n c (K : cond) (L z v : mat) :
-    sample_step n c (c_nooff n c K) L z (bcast n c v)
-    = bcast n c (madd n 1 (mmul n n 1 L z) (mmul n n 1 (gain n K) v)).
+    sample_step n c (c_nooff n c K) L z v
+    = madd n c (mmul n n c L z) (mmul n n c (gain n K) v).
   Proof.
-    rewrite sample_step_is_canon. unfold bcast at 2. apply mk_ext. intros i a Hi Ha.
+    rewrite sample_step_is_canon. unfold madd. apply mk_ext. intros i a Hi Ha.
     rewrite mget_sample_step by assumption. cbn [c_nooff c_A c_b c_tl c_to].
     rewrite mget_mzero by assumption.
-    rewrite mget_madd by lia. rewrite !mget_mmul by lia.
-    rewrite (vsum_ext n (fun l => mget (gain n K) i l * mget v l 0)
-               (fun l => vget (c_to K) i * (mget (c_A K) i l * (vget (c_tl K) l * mget (bcast n c v) l a)))).
-    2:{ intros l Hl. unfold gain. rewrite mget_mk by assumption.
-        rewrite mget_bcast by assumption. ring. }
+    rewrite !mget_mmul by assumption.
+    rewrite (vsum_ext n (fun l => mget (gain n K) i l * mget v l a)
+               (fun l => vget (c_to K) i * (mget (c_A K) i l * (vget (c_tl K) l * mget v l a)))).
+    2:{ intros l Hl. unfold gain. rewrite mget_mk by assumption. ring. }
     rewrite vsum_scale_l. ring.
   Qed.
 
   Lemma rev_rows_nonempty n steps (LN : mat) : rev_rows n steps LN <> [].
   Proof. destruct steps as [|[K L] r]; discriminate. Qed.
 
+  Lemma n_sample_lin_is_wsum n c (L0 z0 : mat) :
+    n_sample n c (mzero n c) L0 z0 = wsum n c [L0] [z0].
+  Proof. unfold n_sample. cbn [wsum]. apply madd_comm. Qed.
+
   Lemma rev_chain_linear_part n c (steps : list (cond * mat * mat)) (L0 z0 : mat) :
     rev_chain n c (map (st_nooff n c) steps) (n_sample n c (mzero n c) L0 z0)
-    = map (fun row => bcast n c (wsum n row (map snd steps ++ [z0])))
+    = map (fun row => wsum n c row (map snd steps ++ [z0]))
           (rev_rows n (map fst steps) L0).
   Proof.
     induction steps as [|[[K L] z] r IH].
-    - cbn. f_equal. unfold n_sample. rewrite madd_mzero_l.
-      unfold bcast at 1. rewrite canon_mk.
-      apply bcast_ext. intros i Hi. rewrite mget_madd by lia. rewrite mget_mzero by lia. ring.
+    - cbn [map rev_chain rev_rows app]. f_equal. apply n_sample_lin_is_wsum.
     - cbn [map rev_chain st_nooff fst snd rev_rows app]. rewrite IH.
       set (zr := map snd r ++ [z0]).
       set (rows := rev_rows n (map fst r) L0).
       rewrite (hd_map_nonempty _ _ []) by apply rev_rows_nonempty.
       f_equal.
       + rewrite sample_step_linear_part. cbn [wsum]. rewrite wsum_map_gain. reflexivity.
-      + rewrite map_map. apply map_ext. intro row. symmetry. apply bcast_wsum_zero_head.
+      + rewrite map_map. apply map_ext. intro row. symmetry. apply wsum_zero_head.
   Qed.
 
   Lemma scan_linear_part n c (steps : list (cond * mat * mat)) (row zr : list mat) :
-    scan_samples n c (bcast n c (wsum n row zr)) (map (st_nooff n c) steps)
-    = zipw (fun row' zr' => bcast n c (wsum n row' zr'))
+    scan_samples n c (wsum n c row zr) (map (st_nooff n c) steps)
+    = zipw (fun row' zr' => wsum n c row' zr')
            (fwd_rows_from n row (map fst steps)) (fwd_draws zr (map snd steps)).
   Proof.
     revert row zr. induction steps as [|[[K L] z] r IH]; intros row zr; [reflexivity|].
     cbn [map scan_samples st_nooff fst snd fwd_rows_from fwd_draws zipw].
     rewrite sample_step_linear_part.
-    assert (Hx : bcast n c (madd n 1 (mmul n n 1 L z) (mmul n n 1 (gain n K) (wsum n row zr)))
-                 = bcast n c (wsum n (L :: map (mmul n n n (gain n K)) row) (z :: zr))).
+    assert (Hx : madd n c (mmul n n c L z) (mmul n n c (gain n K) (wsum n c row zr))
+                 = wsum n c (L :: map (mmul n n n (gain n K)) row) (z :: zr)).
     { cbn [wsum]. rewrite wsum_map_gain. reflexivity. }
     rewrite Hx. f_equal. apply IH.
   Qed.
+
   (* ================================================================
      T13.2c  Gram matrix of the linear part = joint covariance *)
   Lemma cross_sum_canon n ws vs : canon n n (cross_sum n ws vs) = cross_sum n ws vs.
